@@ -7,6 +7,7 @@
 -/
 import CspuzModel.Proofs.C17
 import CspuzModel.Proofs.C15Puzzles
+import CspuzModel.Proofs.C17Reenc
 namespace Cspuz.C17
 open Cspuz Cspuz.Ser
 
@@ -49,12 +50,46 @@ def statement_total_puzzles : Prop :=
 
 theorem C17_total_puzzles : statement_total_puzzles := puzzleCodecs_safe
 
-/-- **Re-encodability** (full strength; statement): whatever a decoder returns can be serialized, and the canonical
-text decodes to the same problem. -/
+/-- **Re-encodability** (full strength; statement only — proved below for Grid/Seq over flat bases and for the six
+grid puzzle codecs; NOT proved for arbitrary nested terms, nor for the three `Rooms`-based codecs, where it would need
+"every decoded partition is a valid partition in canonical form", see the report): whatever a decoder returns can be
+serialized, and the canonical text decodes to the same problem. -/
 def statement_reencodable : Prop :=
   ∀ (c : Comb), wf c = true → single c = true →
     ∀ (s : Str) (h w : Nat) (p : PyVal), deProblem c s h w = .ok p →
       ∃ s', serProblem c p h w = .ok s' ∧ deProblem c s' h w = .ok p
+
+/-- **Re-encodability, proved part**: for every well-formed `Grid(b)` / `Seq(b, n)` whose base `b` is flat (a `MultiDigit`,
+or a `Dict`/`Spaces`/`HexInt`/`IntSpaces`/`YajilinClue` leaf, or a `OneOf` of such leaves) and closed (`closedBase`: the
+padding value of an `IntSpaces` alternative is accepted by some alternative; no embedded value looks like a
+non-canonical yajilin clue), every board size and EVERY text: a returned problem lies in `Dom`, so serializing it
+succeeds and decoding the canonical text returns the same problem. -/
+def statement_reencodable_partial : Prop :=
+  (∀ (b : Comb) (dims : Option (Nat × Nat)), wf (.grid b dims) = true → FlatBase b → closedBase b = true →
+    ∀ (s : Str) (h w : Nat) (p : PyVal), deProblem (.grid b dims) s h w = .ok p →
+      Dom (.grid b dims) h w p ∧ ∃ s', serProblem (.grid b dims) p h w = .ok s' ∧ deProblem (.grid b dims) s' h w = .ok p) ∧
+  (∀ (b : Comb) (n : Nat), wf (.seq b n) = true → FlatBase b → closedBase b = true →
+    ∀ (s : Str) (h w : Nat) (p : PyVal), deProblem (.seq b n) s h w = .ok p →
+      ∃ s', serProblem (.seq b n) p h w = .ok s' ∧ deProblem (.seq b n) s' h w = .ok p)
+
+theorem C17_reencodable_partial : statement_reencodable_partial :=
+  ⟨fun b dims hw hf hc s h w p hde =>
+      ⟨grid_reencodable b dims hw hf hc s h w p hde, grid_reencodable' b dims hw hf hc s h w p hde⟩,
+   fun b n hw hf hc s h w p hde => seq_reencodable' b n hw hf hc s h w p hde⟩
+
+/-- **Re-encodability of the six grid puzzle codecs** (regenerated terms), also through `deserialize_<puzzle>`'s call of
+`deserialize_problem_as_url`: the decoded problem belongs to the board size written in the URL, serializes, and
+its canonical body decodes to the same problem. -/
+def statement_reencodable_puzzles : Prop :=
+  (∀ pc ∈ [Gen.nurikabeCodec, Gen.masyuCodec, Gen.slitherlinkCodec, Gen.sudokuCodec, Gen.nurimisakiCodec, Gen.yajilinCodec],
+    ∀ s h w p, deProblem pc.comb s h w = .ok p →
+      ∃ s', serProblem pc.comb p h w = .ok s' ∧ deProblem pc.comb s' h w = .ok p) ∧
+  (∀ pc ∈ [Gen.nurikabeCodec, Gen.masyuCodec, Gen.slitherlinkCodec, Gen.sudokuCodec, Gen.nurimisakiCodec, Gen.yajilinCodec],
+    ∀ url p, deProblemAsUrl pc.comb url pc.allowed pc.allowFailure pc.returnSize = .ok p →
+      ∃ name wd hd body hh ww, matchUrl url = some (name, wd, hd, body) ∧ pyInt hd = .ok hh ∧ pyInt wd = .ok ww ∧
+        ∃ s', serProblem pc.comb p hh ww = .ok s' ∧ deProblem pc.comb s' hh ww = .ok p)
+
+theorem C17_reencodable_puzzles : statement_reencodable_puzzles := ⟨puzzles_reencodable, puzzles_reencodable_url⟩
 
 /-! ### non-vacuity: the model reproduces the concrete behaviours the property is about -/
 
